@@ -925,6 +925,41 @@ func (c *Ctx) threeGPPRules(r *Report, prefix string, bf *buildersFile) {
 			okV = ok1 && ok2 && vid == bf.gppInt("vendor_id") && vt == bf.gppInt("vendor_type_eap5g")
 		}
 		if !okV {
+			// the same object written out: &EapExpanded{VendorID: 10415, VendorType: 3, VendorData: <a buffer made here>}
+			var vidOK, vtOK, vdOK bool
+			for _, b := range fn.Blocks {
+				for _, ins := range b.Instrs {
+					st, ok := ins.(*ssa.Store)
+					if !ok {
+						continue
+					}
+					fa, ok := st.Addr.(*ssa.FieldAddr)
+					if !ok {
+						continue
+					}
+					al, ok := fa.X.(*ssa.Alloc)
+					if !ok || !strings.HasSuffix(typeKey(al.Type()), "eap.EapExpanded") {
+						continue
+					}
+					switch fieldNameOf(fa) {
+					case "VendorID":
+						if v, ok := constArg(st.Val); ok && v == bf.gppInt("vendor_id") {
+							vidOK = true
+						}
+					case "VendorType":
+						if v, ok := constArg(st.Val); ok && v == bf.gppInt("vendor_type_eap5g") {
+							vtOK = true
+						}
+					case "VendorData":
+						if _, isMk := st.Val.(*ssa.MakeSlice); isMk {
+							vdOK = true
+						}
+					}
+				}
+			}
+			okV = vidOK && vtOK && vdOK
+		}
+		if !okV {
 			bad = append(bad, "not wrapped into Expanded(10415, 3, ...)")
 		}
 		r.Check(len(bad) == 0, rule, "BuildEAP5GNAS", c.Pos(fn.Pos()), "[2][spare 0][BE16 len(nasPDU)][nasPDU] in Expanded(10415, 3)", strings.Join(bad, "; "))
